@@ -9,7 +9,12 @@ package driver
 //
 // steps: dR<v> ROAccessReport variant v from device d, dE<v> ReaderEventNotification variant v
 // (v=4 carries a successful ConnectionAttemptEvent), dr<v>/de<v> a report/event the decoder
-// rejects, dM / dL a well-formed report just under / over the client's 640 KiB buffer limit, dK keep-alive, dC<k> command through the driver (0-3 reads, 4 write ROSpecID/Enable).
+// rejects, dM / dL a well-formed report just under / over the client's 640 KiB buffer limit, dK keep-alive,
+// dT<k> a request with a 30 ms deadline that the reader answers at once (0), in two pieces around
+// the deadline (1, 4), late (2) or never (3) (9: through the driver, pieces 21 s apart),
+// d+<modes> (anywhere in the list) how device d's first connections fail before the normal one
+// (s: SetReaderConfig rejected, x: dropped after the connection event, y: dropped when
+// SetReaderConfig arrives, w: SetReaderConfig never answered), dC<k> command through the driver (0-3 reads, 4 write ROSpecID/Enable).
 //
 // ndev real LLRPDevices are created by the driver itself (AddDevice -> getDevice ->
 // NewLLRPDevice) on ONE Driver, i.e. one asynchronous-values channel, each connected to its own
@@ -18,11 +23,14 @@ package driver
 // reports arrive while commands are in flight. The test reads the channel and matches every value
 // against what was sent: content = what the library's decoder gives for the bytes that were sent.
 //
-// answer: "<n> d:RO:i d:REN:i ... | acks=a/k cmds=ok/n other=n conns=n errs=n"; d = index of the
+// answer: "<n> d:RO:i d:REN:i ... | acks=a/k cmds=ok/n timed=ok/n other=n conns=n errs=n sent=d:i,..";
+// sent = the connection events the readers really sent (2000+100d+n for connection n of device d);
+// d = index of the
 // device NAME the value was published under, i = index of the step whose content it carries
-// (1000+d: connection event of device d); anomalies start with '!'.
+// anomalies start with '!'. Output lines are "S <i>" / "R <i> <answer>" (see TestVerifC13).
 
 import (
+	"context"
 	"encoding/binary"
 	"fmt"
 	"math/rand"
@@ -41,6 +49,7 @@ import (
 	"github.com/edgexfoundry/go-mod-core-contracts/v4/common"
 	"github.com/edgexfoundry/go-mod-core-contracts/v4/models"
 
+	"github.com/edgexfoundry/device-rfid-llrp-go/internal/retry"
 	"github.com/edgexfoundry/device-rfid-llrp-go/pkg/llrp"
 )
 
@@ -49,16 +58,26 @@ type c13SDK struct{ interfaces.DeviceServiceSDK }
 func (c13SDK) UpdateDeviceOperatingState(string, models.OperatingState) error { return nil }
 
 type c13Reader struct {
-	ln      net.Listener
-	idx     int
-	wmu     sync.Mutex
-	conn    net.Conn
-	ready   chan struct{}
-	once    sync.Once
-	acks    atomic.Int64
-	conns   atomic.Int64
-	connUTC uint64
+	ln    net.Listener
+	idx   int
+	wmu   sync.Mutex
+	conn  net.Conn
+	ready chan struct{}
+	once  sync.Once
+	acks  atomic.Int64
+	conns atomic.Int64
+	// modes: how the first connections go wrong, one character per connection, before the
+	// normal one: 's' the device's SetReaderConfig is answered with an error status, 'x' the
+	// connection drops right after the connection event, 'y' it drops when SetReaderConfig
+	// arrives (unanswered), 'w' SetReaderConfig is never answered (the device waits its 20 s)
+	modes    string
+	stallGRC atomic.Bool // answer the next GetReaderConfig in two pieces, 21 s apart
+	stall    time.Duration
 }
+
+// the n-th connection of device d announces itself with a distinct time stamp
+func c13ConnUTC(d, n int) uint64 { return 1600000000000000 + uint64(1000*d+n) }
+func c13ConnIdx(d, n int) int    { return 2000 + 100*d + n }
 
 var c13Replies = map[int]int{1: 11, 2: 12, 3: 13, 20: 30, 24: 34, 26: 36, 44: 54}
 
@@ -72,25 +91,51 @@ func (rd *c13Reader) write(b []byte) error {
 	return err
 }
 
+// writeSplit writes b[:cut], waits, writes the rest; nothing else gets in between
+func (rd *c13Reader) writeSplit(b []byte, cut int, wait time.Duration) {
+	rd.wmu.Lock()
+	defer rd.wmu.Unlock()
+	if rd.conn == nil {
+		return
+	}
+	rd.conn.Write(b[:cut])
+	time.Sleep(wait)
+	rd.conn.Write(b[cut:])
+}
+
 func (rd *c13Reader) serve() {
-	for {
+	for n := 0; ; n++ {
 		c, err := rd.ln.Accept()
 		if err != nil {
 			return
 		}
-		rd.conns.Add(1)
+		mode := byte(0)
+		if n < len(rd.modes) {
+			mode = rd.modes[n]
+		}
 		rd.wmu.Lock()
 		rd.conn = c
 		rd.wmu.Unlock()
-		rd.write(c15Frame(c15MsgReaderEventNotification, 1, c15ConnEvent(0, rd.connUTC)))
+		rd.write(c15Frame(c15MsgReaderEventNotification, 1, c15ConnEvent(0, c13ConnUTC(rd.idx, n))))
+		rd.conns.Add(1)
+		if mode == 'x' {
+			time.Sleep(2 * time.Millisecond)
+			c.Close()
+			continue
+		}
 		for {
-			typ, id, _, err := c15ReadFrame(c)
+			typ, id, payload, err := c15ReadFrame(c)
 			if err != nil {
 				break
 			}
 			switch {
 			case typ == c15MsgGetSupportedVersion:
 				rd.write(c15Frame(c15MsgGetSupportedVersionResp, id, append([]byte{2 << 5, 2 << 5}, c15Status(0)...)))
+			case typ == c15MsgSetReaderConfig && mode == 's':
+				rd.write(c15Frame(c15MsgSetReaderConfigResp, id, c15Status(100)))
+			case typ == c15MsgSetReaderConfig && mode == 'y':
+				c.Close()
+			case typ == c15MsgSetReaderConfig && mode == 'w':
 			case typ == c15MsgSetReaderConfig:
 				rd.write(c15Frame(c15MsgSetReaderConfigResp, id, c15Status(0)))
 				rd.once.Do(func() { close(rd.ready) })
@@ -100,6 +145,22 @@ func (rd *c13Reader) serve() {
 				rd.write(c15Frame(c15MsgCloseConnectionResponse, id, c15Status(0)))
 				time.Sleep(2 * time.Millisecond)
 				c.Close()
+			case typ == 1023 && len(payload) >= 6:
+				// a request of a 'T' step; payload[5] says how to answer (see c13Timed)
+				reply := c15Frame(1023, id, []byte{0, 0, 0x65, 0x1A, 9, 1, 2, 3, 4, 5, 6, 7, 8})
+				switch payload[5] {
+				case 0:
+					rd.write(reply)
+				case 1: // header and part of the payload now, the rest after the caller gave up
+					go rd.writeSplit(reply, 15, rd.stall)
+				case 2: // everything, but only after the caller gave up
+					go func() { time.Sleep(rd.stall); rd.write(reply) }()
+				case 3: // never
+				default: // header now, payload after the caller gave up
+					go rd.writeSplit(reply, 10, rd.stall)
+				}
+			case typ == c15MsgGetReaderConfig && rd.stallGRC.CompareAndSwap(true, false):
+				go rd.writeSplit(c15Frame(c15MsgGetReaderConfigResp, id, c15Status(0)), 14, 21*time.Second)
 			default:
 				if rt, ok := c13Replies[typ]; ok {
 					// answer late, so that reports sent meanwhile meet a command in flight
@@ -114,6 +175,15 @@ func (rd *c13Reader) serve() {
 		}
 		c.Close()
 	}
+}
+
+// request of a 'T' step: a CustomMessage whose first data byte tells the scripted reader how to
+// answer; sent through LLRPDevice.TrySend with a deadline shorter than the reader's stall
+type c13Timed struct{ plan byte }
+
+func (c13Timed) Type() llrp.MessageType { return llrp.MsgCustomMessage }
+func (t c13Timed) MarshalBinary() ([]byte, error) {
+	return []byte{0, 0, 0x65, 0x1A, 9, t.plan}, nil
 }
 
 func c13u16(v int) *uint16 { x := uint16(v); return &x }
@@ -311,24 +381,28 @@ func c13RunScenario(f []string) string {
 			return "!listen"
 		}
 		defer ln.Close()
-		rd := &c13Reader{ln: ln, idx: i, ready: make(chan struct{}), connUTC: 1600000000000000 + uint64(i)}
+		rd := &c13Reader{ln: ln, idx: i, ready: make(chan struct{}), stall: 90 * time.Millisecond}
+		for _, st := range f[3:] {
+			if len(st) > 2 && st[1] == '+' && int(st[0]-'0') == i {
+				rd.modes = st[2:]
+			}
+		}
 		readers[i] = rd
 		go rd.serve()
 		names[i] = fmt.Sprintf("c13-%s-dev%d", id, i)
-		ce := &llrp.ReaderEventNotification{}
-		if err := ce.UnmarshalBinary(c15ConnEvent(0, rd.connUTC)); err != nil {
-			return "!connevent"
-		}
-		steps = append(steps, &c13Step{dev: i, idx: 1000 + i, kind: 'E', want: ce})
 		port := ln.Addr().(*net.TCPAddr).Port
 		if err := d.AddDevice(names[i], protocolMap{"tcp": {"host": "127.0.0.1", "port": strconv.Itoa(port)}}, models.Unlocked); err != nil {
 			return "!adddevice " + err.Error()
 		}
 	}
 	for _, rd := range readers {
+		patience := 8 * time.Second
+		if strings.Contains(rd.modes, "w") {
+			patience = 40 * time.Second
+		}
 		select {
 		case <-rd.ready:
-		case <-time.After(6 * time.Second):
+		case <-time.After(patience):
 			return "!notready"
 		}
 	}
@@ -406,7 +480,9 @@ func c13RunScenario(f []string) string {
 			if (&llrp.ReaderEventNotification{}).UnmarshalBinary(s.payload) == nil {
 				notes = append(notes, "!badgen:"+st)
 			}
-		case 'K', 'C':
+		case 'K', 'C', 'T':
+		case '+':
+			continue
 		default:
 			return "!badstep:" + st
 		}
@@ -419,7 +495,7 @@ func c13RunScenario(f []string) string {
 	}
 
 	var wg sync.WaitGroup
-	var cmdOK, cmdN, kaN atomic.Int64
+	var cmdOK, cmdN, kaN, tOK, tN atomic.Int64
 	for di := 0; di < ndev; di++ {
 		wg.Add(1)
 		go func(di int) {
@@ -431,6 +507,33 @@ func c13RunScenario(f []string) string {
 				case 'K':
 					kaN.Add(1)
 					rd.write(c15Frame(c15MsgKeepAlive, uint32(7000+s.idx), nil))
+				case 'T':
+					// a request with a short deadline; the reader answers slowly, in pieces, or never
+					tN.Add(1)
+					wg.Add(1)
+					go func(s *c13Step) {
+						defer wg.Done()
+						if s.variant == 9 { // through the driver (20 s deadline), reply split 21 s apart
+							rd.stallGRC.Store(true)
+							_, _ = d.HandleReadCommands(names[s.dev], nil,
+								[]dsModels.CommandRequest{{DeviceResourceName: ResourceReaderConfig, Type: common.ValueTypeObject}})
+							time.Sleep(1500 * time.Millisecond) // until the reader has finished its reply
+							return
+						}
+						dev, _, err := d.getDevice(names[s.dev], nil)
+						if err != nil {
+							return
+						}
+						ctx, cancel := context.WithTimeout(context.Background(), 30*time.Millisecond)
+						err = dev.TrySend(ctx, c13Timed{plan: byte(s.variant % 5)}, &llrp.CustomMessage{})
+						cancel()
+						if err == nil {
+							tOK.Add(1)
+						}
+						if s.variant%5 != 0 && s.variant%5 != 3 {
+							time.Sleep(rd.stall) // until the reader has finished its reply
+						}
+					}(s)
 				case 'C':
 					cmdN.Add(1)
 					wg.Add(1)
@@ -461,7 +564,20 @@ func c13RunScenario(f []string) string {
 	}
 	wg.Wait()
 
-	want := 0
+	// every connection event the readers sent must be published too
+	connSteps := func() []*c13Step {
+		var cs []*c13Step
+		for di, rd := range readers {
+			for n := 0; n < int(rd.conns.Load()); n++ {
+				ce := &llrp.ReaderEventNotification{}
+				if ce.UnmarshalBinary(c15ConnEvent(0, c13ConnUTC(di, n))) == nil {
+					cs = append(cs, &c13Step{dev: di, idx: c13ConnIdx(di, n), kind: 'E', want: ce})
+				}
+			}
+		}
+		return cs
+	}
+	want := len(connSteps())
 	for _, s := range steps {
 		if s.want != nil {
 			want++
@@ -494,6 +610,12 @@ func c13RunScenario(f []string) string {
 	<-collectDone
 
 	// match what was published against what was sent
+	cs := connSteps()
+	var sent []string
+	for _, c := range cs {
+		sent = append(sent, fmt.Sprintf("%d:%d", c.dev, c.idx))
+	}
+	steps = append(steps, cs...)
 	devIdx := func(name string) string {
 		for i, n := range names {
 			if n == name {
@@ -565,8 +687,8 @@ func c13RunScenario(f []string) string {
 	for _, rd := range readers {
 		conns += rd.conns.Load()
 	}
-	return fmt.Sprintf("%d %s | acks=%d/%d cmds=%d/%d other=%d conns=%d errs=%d", len(toks), strings.Join(toks, " "),
-		acks, kaN.Load(), cmdOK.Load(), cmdN.Load(), other, conns, errs.Load())
+	return fmt.Sprintf("%d %s | acks=%d/%d cmds=%d/%d timed=%d/%d other=%d conns=%d errs=%d sent=%s", len(toks), strings.Join(toks, " "),
+		acks, kaN.Load(), cmdOK.Load(), cmdN.Load(), tOK.Load(), tN.Load(), other, conns, errs.Load(), strings.Join(sent, ","))
 }
 
 var _ = binary.BigEndian
@@ -574,7 +696,20 @@ var _ = binary.BigEndian
 func TestVerifC13(t *testing.T) {
 	lines, w, done := verifIO(t)
 	defer done()
-	out := make([]string, len(lines))
+	// reconnects after a scripted connection failure should not take the production back-off
+	oldQ, oldS := retry.Quick, retry.Slow
+	retry.Quick = retry.ExpBackOff{BackOff: 20 * time.Millisecond, Max: 20 * time.Millisecond, KeepErrs: 10}
+	retry.Slow = retry.ExpBackOff{BackOff: 40 * time.Millisecond, Max: 40 * time.Millisecond, KeepErrs: 10}
+	defer func() { retry.Quick, retry.Slow = oldQ, oldS }()
+	// answers are written as they come, "S <i>" when scenario i starts and "R <i> <answer>" when it
+	// is done, so that a crash of the process can be attributed to the scenarios then running
+	var omu sync.Mutex
+	emit := func(format string, a ...interface{}) {
+		omu.Lock()
+		fmt.Fprintf(w, format, a...)
+		w.Flush()
+		omu.Unlock()
+	}
 	sem := make(chan struct{}, 8)
 	var wg sync.WaitGroup
 	for i, line := range lines {
@@ -583,11 +718,9 @@ func TestVerifC13(t *testing.T) {
 		go func(i int, f []string) {
 			defer wg.Done()
 			defer func() { <-sem }()
-			out[i] = c13RunScenario(f)
+			emit("S %d\n", i)
+			emit("R %d %s\n", i, c13RunScenario(f))
 		}(i, strings.Fields(line))
 	}
 	wg.Wait()
-	for _, o := range out {
-		fmt.Fprintln(w, o)
-	}
 }
